@@ -20,7 +20,8 @@ def total (e : EngIn) (c : Nat → Rat) (x : State) : Rat :=
   ∑ i ∈ range e.topo.nCells, ∑ s ∈ range e.net.nSpecies, c s * x i s
 
 /-- every neighbour is a cell of the space -/
-def TopoOK (e : EngIn) : Prop := ∀ i n j, i < e.topo.nCells → e.topo.nbr i n = some j → j < e.topo.nCells
+def TopoOK (e : EngIn) : Prop :=
+  ∀ i n j, i < e.topo.nCells → n < e.topo.nSlots i → e.topo.nbr i n = some j → j < e.topo.nCells
 
 /-- a state that differs from `x` only in row (cell) `i` -/
 theorem total_row {e : EngIn} {c : Nat → Rat} {x y : State} {i : Nat} (hi : i < e.topo.nCells)
@@ -113,10 +114,11 @@ theorem total_move {e : EngIn} {c : Nat → Rat} (hf : Free e c) (x : State) {i 
       rw [total_update x' _ hj hs, ht]; ring
 
 theorem total_applyEvent_diffusion {e : EngIn} {c : Nat → Rat} (hf : Free e c) (htopo : TopoOK e) (x : State)
-    {i s n : Nat} (hi : i < e.topo.nCells) (hs : s < e.net.nSpecies) (hsome : (e.topo.nbr i n).isSome) :
+    {i s n : Nat} (hi : i < e.topo.nCells) (hs : s < e.net.nSpecies) (hn : n < e.topo.nSlots i)
+    (hsome : (e.topo.nbr i n).isSome) :
     total e c (applyEvent e x (.diffusion i s n)) = total e c x := by
   obtain ⟨j, hj⟩ := Option.isSome_iff_exists.1 hsome
-  have hjlt := htopo i n j hi hj
+  have hjlt := htopo i n j hi hn hj
   simp only [applyEvent, hj]
   have := total_move hf x (1 : Rat) hi hjlt hs (c := c)
   simpa using this
@@ -142,8 +144,8 @@ theorem gillespie_conserves {e : EngIn} {c : Nat → Rat} (hv : EngValid e) (hc 
     obtain ⟨hi, hr, _, _⟩ := hleg
     exact total_applyEvent_reaction hc hf x hi hr
   | diffusion i s n =>
-    obtain ⟨hi, hs, _, j, hj, _, _⟩ := hleg
-    exact total_applyEvent_diffusion hf (fun i n j _ h => hv.nbr_lt i n j h) x hi hs (by simp [hj])
+    obtain ⟨hi, hs, hn, j, hj, _, _⟩ := hleg
+    exact total_applyEvent_diffusion hf (fun i n j _ _ h => hv.nbr_lt i n j h) x hi hs hn (by simp [hj])
 
 /-! ### Tau-leap -/
 
@@ -156,7 +158,7 @@ theorem total_applyNevtCell {e : EngIn} {c : Nat → Rat} (hc : Cons e.net c) (h
   unfold applyNevtCell
   -- diffusion part
   rw [total_foldl_zero e c _ _ _ (fun y s hs => by
-    rw [total_foldl_zero e c _ _ _ (fun z n _ => by
+    rw [total_foldl_zero e c _ _ _ (fun z n hnmem => by
       by_cases h0 : (k.nd i s n == 0) = true
       · simp only [h0, if_true]
       · simp only [h0]
@@ -165,7 +167,7 @@ theorem total_applyNevtCell {e : EngIn} {c : Nat → Rat} (hc : Cons e.net c) (h
           have := hw i s n hn
           simp [this] at h0
         | some j =>
-          have hjlt := htopo i n j hi hn
+          have hjlt := htopo i n j hi (List.mem_range.1 hnmem) hn
           exact total_move hf z ((k.nd i s n : Int) : Rat) hi hjlt (List.mem_range.1 hs))])]
   -- reaction part
   rw [total_foldl_zero e c _ _ _ (fun y r hr => by
